@@ -12,9 +12,9 @@ cp $WT/tests/seed_demo.rs $OUT/seed_demo.rs 2>/dev/null
 export CARGO_NET_OFFLINE=true
 echo "== with change: existing tests"; cargo test --offline --lib 2>&1 | grep "test result" | head -2
 echo "== with change: demo"; cargo test --offline --test seed_demo 2>&1 | grep "test result" | head -2
-git stash -q -- src
+git diff -- src > /tmp/.try_seed_$$.diff; git checkout -q -- src
 echo "== without change: demo"; cargo test --offline --test seed_demo 2>&1 | grep "test result" | head -2
-git stash pop -q
+git apply /tmp/.try_seed_$$.diff; rm -f /tmp/.try_seed_$$.diff
 cd /repo && git apply $OUT/patch.diff || { echo "patch does not apply"; exit 2; }
 cd /verif
 for id in $PID $EXTRA; do
